@@ -988,6 +988,15 @@ impl Exec {
                 let batch = decode_batch(&arg["b"], &self.uni, tag);
                 let n = self.n.as_ref().unwrap();
                 let session = n.begin_session(params);
+                if self.cfg.warm_up && !batch.is_empty() {
+                    // warm-up of a session on an overlay chain: the warm-up worker seeks through
+                    // pages that live in the uncommitted ancestors
+                    for (k, _) in batch.iter() {
+                        session.warm_up(*k);
+                    }
+                    std::thread::sleep(std::time::Duration::from_micros(1000 + 25 * batch.len() as u64));
+                    self.out.goals.push("warm-up:overlay-session");
+                }
                 // session view audit
                 let view_root = refmodel::root::<B3>(&view);
                 for k in &self.uni {
